@@ -9,7 +9,7 @@ PROFILE_SPEC = {
     'dec-replay': 'TraceDec', 'dec-deep': 'TraceDec',
     'mem': 'TraceMem',
     'query-overflow': 'TraceMisc',
-    'labels': 'TraceMisc', 'oneshot': 'TraceMisc', 'oneshot-replay': 'TraceMisc', 'meta': 'TraceMisc', 'forbom': 'TraceMisc',
+    'labels': 'TraceMisc', 'oneshot': 'TraceMisc', 'oneshot-replay': 'TraceMisc', 'oneshot-enc-replay': 'TraceMisc', 'meta': 'TraceMisc', 'forbom': 'TraceMisc',
     'enc-sweep': 'TraceEnc', 'enc-pairs': 'TraceEnc', 'enc-cutsets': 'TraceEnc', 'enc-random': 'TraceEnc', 'enc-replay': 'TraceEnc',
 }
 
@@ -717,6 +717,7 @@ def plan_C11(rep, seed, tier):
     binp = build_harness('default')
     rv(rep, binp, 'oneshot', seed, tier, shards=32)
     run_mc_oneshot(rep, binp, MC_ONESHOT_THOROUGH if tier == 'thorough' else MC_ONESHOT_QUICK)
+    run_mc_oneshot_enc(rep, binp, MC_ONESHOT_ENC_THOROUGH if tier == 'thorough' else MC_ONESHOT_ENC_QUICK)
     rep.cov['rule'] = ('Encoding::decode / decode_with_bom_removal / decode_without_bom_handling / ..._and_without_replacement / encode for all 40 encodings: '
                        'ASCII run of every length 0..130 (and 191..193, 255..257, 1000, 4095..4097) followed by class-alphabet tails and BOM look-alikes; '
                        'text, encoding used, error flag, None-iff-malformed, borrow promise and aliasing judged by the spec; streaming twin compared')
@@ -810,6 +811,79 @@ def run_mc_oneshot(rep, binp, configs):
         run['model_conformant'] = False
         run['first_drift'] = first
         log('MODEL-DRIFT %s: %d predictions differ, first: %s' % (run['model'], n, json.dumps(first)[:600]))
+
+
+def OEc(enc, alphabet, maxitems):
+    return dict(EncName=enc, EncSource='utf8', Alphabet=alphabet, MaxItems=maxitems)
+
+
+MC_ONESHOT_ENC_QUICK = [
+    OEc('windows-1252', [0x61, 0xE9, 0x20AC, 0x3042, 0x410, 0x1F4A9], 4),
+    OEc('ISO-2022-JP', [0x61, 0x1B, 0x5C, 0xA5, 0x3042, 0xFF61, 0xE9, 0x1F4A9], 4),
+    OEc('Big5', [0x61, 0x4E00, 0x2008A, 0xE9, 0x1F4A9], 5),
+    OEc('gb18030', [0x61, 0x80, 0x20AC, 0x4E00, 0x1F4A9], 5),
+    OEc('UTF-16LE', [0x61, 0xE9, 0x1F4A9], 4),
+    OEc('replacement', [0x61, 0xE9], 4),
+    OEc('EUC-KR', [0x61, 0xAC00, 0x4E02, 0xE9, 0x1F4A9], 5),
+    OEc('x-user-defined', [0x61, 0x80, 0xF780, 0x1F4A9], 5),
+]
+MC_ONESHOT_ENC_THOROUGH = MC_ONESHOT_ENC_QUICK + [
+    OEc('Shift_JIS', [0x61, 0x5C, 0xA5, 0x203E, 0xFF61, 0x3042, 0x4E02, 0x1F4A9], 5),
+    OEc('EUC-JP', [0x61, 0xA5, 0x2212, 0xFF61, 0x3042, 0x4E00, 0x80], 5),
+    OEc('IBM866', [0x61, 0x410, 0xE9, 0x3042, 0x10FFFF], 6),
+    OEc('windows-1252', [0x61, 0x3042], 10),
+    OEc('ISO-2022-JP', [0x61, 0x3042, 0xE9], 8),
+]
+
+
+def run_mc_oneshot_enc(rep, binp, configs):
+    """as run_mc_oneshot, for Encoding::encode"""
+    import concurrent.futures
+    t = time.time()
+    with concurrent.futures.ThreadPoolExecutor(max_workers=8) as ex:
+        futs = [ex.submit(mc_run, 'MC_OneShotEnc', cfg, ('NoViolation',), (), None, 1, 3000, True, '4g') for cfg in configs]
+        runs = [f.result() for f in futs]
+    log('TLC model checking of %d configurations of MC_OneShotEnc in %.1fs' % (len(configs), time.time() - t))
+    outdir = '%s/%s/mcreplay_MC_OneShotEnc' % (RUN, rep.prop)
+    clean_dir(outdir)
+    infile = outdir + '/inputs.ndjson'
+    preds = []
+    with open(infile, 'w') as f:
+        for cfg, r in zip(configs, runs):
+            rep.add_mc(r['name'], r, 'Layer I of Encoding::encode (output encoding, borrow decisions, first allocation, encode_from_utf8_to_vec loop with reserve_exact, '
+                                    'had_errors accumulation) judged by the one-shot rule of the monitor on every text <= MaxItems over the alphabet')
+            run = rep.cov['mc_runs'][-1]
+            run['consts'] = cfg
+            if r.get('violated') or not r.get('completed'):
+                run['model_violation'] = True
+                rep.notes.append('MODEL-ALARM %s: %s' % (r['name'], (r.get('error_text') or '')[:1500]))
+                log('MODEL-ALARM', r['name'], (r.get('error_text') or '')[:600])
+            hs = r.get('hists', [])
+            run['inputs'] = len(hs)
+            run['predictions_with_second_allocation'] = sum(1 for h in hs if h['pred']['allocs'] >= 2)
+            for h in hs:
+                f.write(json.dumps({'enc': h['enc'], 'text': h['text']}) + '\n')
+                preds.append((run, h))
+    if not preds:
+        return
+    st = run_profile(binp, 'oneshot-enc-replay', outdir, 1, 'quick', shards=1, extra=['--in', infile])
+    results = validate_traces('TraceMisc', split_file(st['files'][0], 16))
+    rep.add_trace_results('replay of %d texts exported by MC_OneShotEnc through Encoding::encode' % len(preds), 'TraceMisc', results, st)
+    handle_trace_violations(rep, results)
+    evs = [json.loads(l) for l in open(st['files'][0])]
+    for run, h in preds:
+        run.setdefault('model_drift_calls', 0)
+        run.setdefault('model_conformant', True)
+    for i, (run, h) in enumerate(preds):
+        e = evs[i] if i < len(evs) else {}
+        real = {k: e.get(k) for k in ('out', 'used', 'had', 'borrowed', 'panic')}
+        pred = {k: h['pred'][k] for k in real}
+        if real != pred:
+            run['model_drift_calls'] += 1
+            if run['model_conformant']:
+                run['model_conformant'] = False
+                run['first_drift'] = {'text': h['text'], 'predicted': pred, 'real': real}
+                log('MODEL-DRIFT %s: first: %s' % (run['model'], json.dumps(run['first_drift'])[:600]))
 
 
 def split_file(path, n):
